@@ -14,7 +14,7 @@
 bool tcp_finish_connect(Device * dev);
 bool tcp_connect(Device * dev);
 void tcp_disconnect(Device * dev);
-void tcp_preprocess(Device * dev);
+void tcp_preprocess(Device * dev, int nread);
 void *tcp_create(char *host, char *port, char *flags);
 void tcp_destroy(void *data);
 
